@@ -3,7 +3,9 @@ package main
 import (
 	"bytes"
 	"fmt"
+	"io"
 	"strings"
+	"testing/iotest"
 
 	"github.com/robfig/soy"
 	"github.com/robfig/soy/data"
@@ -332,16 +334,54 @@ func checkC06(c *Ctx) {
 	// (i) ParseGlobals on every line form
 	lines := []string{"", "// comment", "A = 1", "A=1", " A = 'x' ", "A.B = true", "A = null", "A = 1.5", "A = -1", "A = 0x1F", "A", "= 1", "A = ", "A = 1 2", "A = $x", "A = $x.y", "A = 1 < 'a'",
 		"A = [1, 2]", "A = ['k': 1]", "A = f(1)", "A = length(1)", "A = not", "A = 'unterminated", "A = 1 / 0", "A = 1 % 0", "A = $ij.x", "A = range(1, 2, 0)", "A = -'a'", "A = 1 == 1 == 1", "A = B", "A = 'a' + 1", "A = =", "A = '\\u12'", "A = 'ab\\u00e'", "A = '\\x'", "A = '\\u00e9'", "\x00", "A = \xff"}
+	type gin struct {
+		text   string
+		reader string // "" = whole input at once; "1" = one byte per Read; "7" = seven bytes per Read
+	}
+	var gins []gin
 	for _, l1 := range lines {
 		for _, l2 := range lines {
+			gins = append(gins, gin{l1 + "\n" + l2 + "\n", ""})
+		}
+	}
+	// line terminators (LF, CRLF, lone CR, none at the end) and readers that deliver the input in small pieces
+	for _, l1 := range []string{"A = 1", "// c", "", "A = 'x", "B.c = [1, 2]"} {
+		for _, l2 := range []string{"B = 2", "", "A = $x", "// d"} {
+			for _, t1 := range []string{"\n", "\r\n", "\r", "\n\r", "\r\r\n"} {
+				for _, t2 := range []string{"\n", "\r\n", "\r", ""} {
+					for _, rd := range []string{"", "1", "7"} {
+						gins = append(gins, gin{l1 + t1 + l2 + t2, rd})
+					}
+				}
+			}
+		}
+	}
+	// long inputs: a line terminator on either side of every 4096-byte read boundary
+	for _, term := range []string{"\r\n", "\n", "\r"} {
+		for _, boundary := range []int{4096, 8192, 65536} {
+			for d := -3; d <= 2; d++ {
+				pad := strings.Repeat("a", boundary+d-3)
+				gins = append(gins, gin{"// " + pad + term + "A = 1" + term + "B = 'x'" + term, ""}, gin{"A = '" + pad[:len(pad)-3] + "'" + term + "B = 2", ""})
+			}
+		}
+	}
+	for _, g := range gins {
+		{
 			if !c.Mine() {
 				continue
 			}
-			in := l1 + "\n" + l2 + "\n"
+			in := g.text
 			var m data.Map
 			var err error
-			v := vrt.Run(vrt.Options{Fuel: 500000}, func() {
-				m, err = soy.ParseGlobals(strings.NewReader(in))
+			v := vrt.Run(vrt.Options{Fuel: 5000000}, func() {
+				var r io.Reader = strings.NewReader(in)
+				switch g.reader {
+				case "1":
+					r = iotest.OneByteReader(r)
+				case "7":
+					r = &chunkReader{r: r, n: 7}
+				}
+				m, err = soy.ParseGlobals(r)
 			})
 			cs := c06case{Kind: "globals", Source: in}
 			obs := fmt.Sprintf("e=%v|m=%v", err != nil, m != nil)
@@ -351,7 +391,10 @@ func checkC06(c *Ctx) {
 			if v.Exhausted {
 				obs = "hang"
 			}
-			c.Observe("globals\x00"+in, obs)
+			if len(in) > 300 {
+				cs.Source = fmt.Sprintf("%q ... (%d bytes) ... %q", in[:40], len(in), in[len(in)-40:])
+			}
+			c.Observe("globals\x00"+g.reader+"\x00"+in, obs)
 			c.Nontrivial()
 			switch {
 			case v.Exhausted:
@@ -408,4 +451,17 @@ func checkC06(c *Ctx) {
 			}
 		}
 	}
+}
+
+// chunkReader delivers at most n bytes per Read.
+type chunkReader struct {
+	r io.Reader
+	n int
+}
+
+func (c *chunkReader) Read(p []byte) (int, error) {
+	if len(p) > c.n {
+		p = p[:c.n]
+	}
+	return c.r.Read(p)
 }
